@@ -123,6 +123,13 @@ FOCUS[8] = ("it needs a RARE COINCIDENCE to show - assume the library is already
             "defined in a certain order, a type used first in one position and then another), identity vs equality of type objects or values, object "
             "lifetime (a type garbage-collected and another created at the same address; weak references), recursion depth, or an option combination of "
             "three or more features. Each of your three changes must need such a coincidence; say precisely in meta.json which one.")
+FOCUS[10] = ("it RE-INTRODUCES, in a new guise, a defect that recent maintenance repaired. Run `git log --oneline -40` and `git show <commit>` in your worktree: the "
+             "commits whose message starts with 'fix:' each repaired a real defect (read their messages and diffs). Pick fixes that bear on THIS property and "
+             "write changes that a later refactoring, optimisation or clean-up could plausibly make which bring back that defect or a close cousin of it - NOT a "
+             "literal revert of the commit (no `git revert`, do not restore the old lines verbatim): move the repaired logic somewhere it no longer covers one of "
+             "the cases, special-case a fast path around it, change a neighbouring function so that the repaired path is bypassed for some inputs, undo the "
+             "repair for one layout / one entry point / one direction only. Each of your three changes must relate to a DIFFERENT fix commit; name the commit "
+             "in meta.json ('relates_to').")
 FOCUS[4] = ("it lives in the region of the library named below and shows only under a narrow circumstance that a real user could still hit "
             "(one pass or one direction only, one member of a family, a second call, an unusual but legal input or option combination). "
             "REGION for this task: {region}. All three changes must be made inside that region; read it closely first and look for behaviour that the "
